@@ -2,7 +2,7 @@
 
 spec -> impl: MC_Cost.tla enumerates the hostile families F(n) of Cost.tla (rendered to code points in the
               specification), checks the design-level invariants and emits one REPLAY line per member;
-              `doc-cost-run` executes the pipeline on each of them in a worker PROCESS (8 MiB stack, hard
+              `doc-cost-run` executes the pipeline on each of them in a worker PROCESS (2 MiB stack, hard
               wall-clock limit) and records ok / err / panic / abort(signal) / timeout.
 impl -> spec: seeded garbage (`doc-cost-garbage`) and, when available, every input of the C01/C02 model
               (docs.mc_cases) go through the same workers; Trace_Cost.tla judges every event against the
@@ -15,10 +15,13 @@ import time
 import common as C
 
 LIMIT_MS = 5000
-STACK_MIB = 8
+STACK_MIB = 2
 JOBS = 8
 
 GARBAGE = {"quick": 15000, "thorough": 1000000}
+# families whose recursion depth (parser, checks, printer) grows with n
+DEBUG_FAMILIES = {"Deep", "DeepMixed", "Unclosed", "Mismatch", "Parens", "GroupsL", "GroupsR", "SeqGroupsL", "SeqGroupsR",
+                  "MixGroupsL", "ChainContent", "ChainAttr", "CycleContent", "CycleAttr"}
 # Trace_Cost handles a few thousand events per second; every family event, every event that is not
 # ok/err and this many of the others go through it per TLC run (the remainder is validated in further
 # TLC runs of the same size in the thorough tier, see _validate_all)
@@ -132,6 +135,37 @@ def run(prop, tier):
         fam_ev = os.path.join(wd, "families.ev")
         _run_inputs(replay, fam_ev, 1)
         C.log("C03: families run in %.1fs" % (time.time() - t1))
+        # 2b. the families whose RECURSION DEPTH grows with n, up to n = 300, once more through a worker built in the
+        #     dev profile (unoptimized frames are several times larger: a limit that is safe in a release build need
+        #     not be in the build a user tests with); same 2 MiB stack, same judge
+        t1 = time.time()
+        import shutil
+        import subprocess
+        dbg_src = C.build_harness_debug()
+        dbg = os.path.join(wd, "harness-bin-debug")
+        shutil.copy2(dbg_src, dbg)
+        dbg_in = os.path.join(wd, "families.debug.replay")
+        n_dbg = 0
+        with open(replay) as f, open(dbg_in, "w") as g:
+            for ln in f:
+                u = C._unwrap(ln.rstrip("\n"))
+                if u and u[1].get("family") in DEBUG_FAMILIES and u[1].get("n", 0) <= 300:
+                    g.write(ln)
+                    n_dbg += 1
+        if n_dbg == 0:
+            raise C.ToolError("no family member for the dev-profile pass")
+        dbg_ev = os.path.join(wd, "families.debug.ev")
+        p = subprocess.run([dbg, "doc-cost-run", "--in", dbg_in, "--out", dbg_ev, "--limit-ms", str(4 * LIMIT_MS),
+                            "--jobs", str(JOBS), "--chunk", "1", "--family-default", "garbage"],
+                           stdout=subprocess.PIPE, stderr=subprocess.PIPE, text=True, timeout=3000)
+        if p.returncode != 0:
+            C.log(p.stderr[-2000:])
+            raise C.ToolError("dev-profile doc-cost-run exited %d" % p.returncode)
+        with open(fam_ev, "a") as f, open(dbg_ev) as g:
+            for ln in g:
+                f.write(ln)
+        out.extra["family_members_also_run_in_dev_profile"] = n_dbg
+        C.log("C03: %d members run in the dev profile in %.1fs" % (n_dbg, time.time() - t1))
         t1 = time.time()
         # 3. garbage
         garbage = os.path.join(wd, "garbage.ndjson")
